@@ -50,7 +50,7 @@ TNext ==
     \/ (Is("MigRet") /\ MigRet(Ev.by, Ev.u, Ev.ret))
     \/ (Is("MigCb") /\ MigCb(Ev.u))
     \/ (Is("MigCount") /\ MigCount(Ev.u, Ev.n))
-    \/ (Is("Primary") /\ Primary(Ev.u))
+    \/ (Is("Primary") /\ Primary(Ev.u, IF "pool" \in DOMAIN Ev THEN Ev.pool ELSE 0))
     \/ (Is("PrimaryDone") /\ PrimaryDone(Ev.u))
     \/ (Is("Pop") /\ Pop(Ev.by, Ev.t))
     \/ (Is("Prim") /\ Prim(Ev.u, Ev.op, Ev.t, Ev.arg, IF "pool" \in DOMAIN Ev THEN Ev.pool ELSE 0))
@@ -65,7 +65,9 @@ TNext ==
     \/ (Is("Ledger") /\ Ev.live = 0 /\ Ev.errors = 0 /\ NoOp)
     \/ (Is("FinalizeRet") /\ AllTerminated(SeqToSet(Ev.us)) /\ NoOp)
     \/ (Is("End") /\ (Ev.why = "done" => \A u \in Units : st[u] \in {"none", "done", "freed"}) /\ NoOp)
-TSpec == TInit /\ [][TNext]_tvars
+\* a unit that reports its own state while it runs reads RUNNING, however control came back to it
+SelfOK == (More /\ "self" \in DOMAIN Ev) => Ev.self = 1
+TSpec == TInit /\ [][SelfOK /\ TNext]_tvars
 NotAccepted == l <= Len(TraceLog)
 TrackMax == TLCSet(1, IF TLCGet(1) < l THEN l ELSE TLCGet(1))
 ASSUME TLCSet(1, 0)
